@@ -84,10 +84,26 @@ func runOutFault(c Case) interface{} {
 	if b, _ := c["boundary"].(bool); !b {
 		// the exact boundary: one block too few, exactly enough
 		blocks := (len(fb) + 511) / 512
-		if blocks > 0 {
-			limits = append(limits, float64(blocks-1))
+		if str(c["compress"]) == "none" || mode != "generate" {
+			if blocks > 0 {
+				limits = append(limits, float64(blocks-1))
+			}
+			limits = append(limits, float64(blocks))
+		} else {
+			// the size of a compressed archive differs by a few bytes from run to run (the
+			// synthesised members carry the time of the run): stay clear of the boundary
+			kept := []interface{}{}
+			for _, lv := range limits {
+				if d := int(lv.(float64))*512 - len(fb); lv.(float64) < 0 || d < -2048 || d > 2048 {
+					kept = append(kept, lv)
+				}
+			}
+			limits = kept
+			if blocks > 5 {
+				limits = append(limits, float64(blocks-5))
+			}
+			limits = append(limits, float64(blocks+5))
 		}
-		limits = append(limits, float64(blocks))
 		c["limits"] = limits
 		c["boundary"] = true
 	}
